@@ -47,9 +47,11 @@ def txt(n):
 
 
 def program_text(prog, fname, sep=" "):
-    head = ""
+    meta = ""
     if prog.get("mode") == "OR":
-        head = "~ logic-mode: OR ~ "
+        meta += "logic-mode: OR "
+    meta += prog.get("comment", "")
+    head = f"~ {meta}~ " if meta else ""
     return f"{head}${fname}[{prog['scan']}][{sep.join(txt(c) for c in prog['comps'])}]"
 
 
@@ -437,3 +439,33 @@ def rows_to_text(rows):
     for row in rows:
         w.writerow(row)
     return b.getvalue()
+
+
+def index_headers(n):
+    """replace header names a,b,c,d by their indexes (for files without a header row)"""
+    if isinstance(n, (list, tuple)):
+        if len(n) >= 2 and n[0] == "hdr" and n[1] in ALLH:
+            return type(n)(["hdr", str(ALLH.index(n[1]))] + list(n[2:]))
+        if len(n) >= 1 and n[0] == "print":
+            t = n[1]
+            for i, h in enumerate(ALLH):
+                t = t.replace(f"$.headers.{h}", f"$.headers.{i}")
+            return type(n)(["print", t] + list(n[2:]))
+        return type(n)(index_headers(x) for x in n)
+    return n
+
+
+def random_mode_comment(r, p=0.5, allow=("return-mode", "unmatched-mode", "print-mode", "validation-mode")):
+    """a mode-setting outer comment body (may be empty)"""
+    if r.random() > p:
+        return ""
+    out = ""
+    if "return-mode" in allow and r.random() < 0.4:
+        out += "return-mode: " + r.choice(["no-matches", "no-matches", "matches"]) + " "
+    if "unmatched-mode" in allow and r.random() < 0.5:
+        out += "unmatched-mode: " + r.choice(["keep", "keep", "no-keep"]) + " "
+    if "print-mode" in allow and r.random() < 0.2:
+        out += "print-mode: " + r.choice(["default", "no-default"]) + " "
+    if "validation-mode" in allow and r.random() < 0.15:
+        out += "validation-mode: " + r.choice(["no-raise, no-stop", "print, no-raise", "no-print, no-raise"]) + " "
+    return out
